@@ -137,6 +137,8 @@ def tasks(tier):
         out.append(Task("swap/%s/%s/v%d/%s" % (sm, m, v, lay), h_swap, dict(slmode=sm, mode=m, version=v, layout=lay), mods="numint", max_paths=256))
         if m == "SEP":
             out.append(Task("separable/%s/v%d/%s" % (sm, v, lay), h_separable, dict(slmode=sm, version=v, layout=lay), mods="numint", max_paths=256))
+    from . import c01_l2
+    out += c01_l2.spin_tasks(tier)
     return out
 
 
